@@ -228,22 +228,65 @@ def rule_codec(ck):
     rid = "C31.codec"
     un = _impl(ck, R, "_unquote_or_none")
     p = un.params()[0]
-    facts = must_facts(un.cfg)
     calls = [(n, c) for n, c in un.cfg.find(lambda x: q.is_call(x, "url_unescape"))]
     ck.floor(rid, len(calls), 1, "url_unescape in _unquote_or_none")
     for n, c in calls:
-        ck.ob(rid, un, c, holds(facts[n.id], "%s is None" % p, False), "unmatched optional groups (None) are not passed to url_unescape")
         plus = _kw_or_pos(c, "plus", 2)
         enc = _kw_or_pos(c, "encoding", 1)
         ck.ob(rid, un, c, plus is not None and q.is_const(plus, False), "captured path segments are unescaped in path mode (plus=False: '+' stays '+')")
         ck.ob(rid, un, c, enc is not None and isinstance(enc, ast.Constant) and enc.value is None, "captured groups are delivered as bytes (encoding=None)")
         ck.ob(rid, un, c, c.args and q.dotted(c.args[0]) == p, "the captured text itself is unescaped")
-    for r in un.cfg.stmt_nodes(lambda n: n.kind == "stmt" and isinstance(n.ast, ast.Return)):
-        v = r.ast.value
-        if holds(facts[r.id], "%s is None" % p, True):
-            ck.ob(rid, un, r.ast, q.dotted(v) == p or (isinstance(v, ast.Constant) and v.value is None), "None stays None")
-        else:
-            ck.ob(rid, un, r.ast, any(v is c for _, c in calls), "anything else is the unescaped value")
+    # case analysis over the group value: unmatched (None), matched-but-empty (''), non-empty
+    def outcome(e, env):
+        """'none' | 'call' | None(unknown) for a returned expression under a concrete argument"""
+        hops = 0
+        while isinstance(e, ast.IfExp) and hops < 4:
+            try:
+                e = e.body if q.fold(e.test, env) else e.orelse
+            except q.NotFoldable:
+                return None
+            hops += 1
+        if e is None or (isinstance(e, ast.Constant) and e.value is None):
+            return "none"
+        if q.dotted(e) == p:
+            return "none" if env[p] is None else None
+        if any(e is c for _, c in calls):
+            return "call"
+        if isinstance(e, ast.BoolOp):
+            # `s and f(s)` / `f(s) if s else None` style: value of a short-circuit expression
+            try:
+                vals = []
+                for v_ in e.values:
+                    if any(v_ is c for _, c in calls):
+                        return "call" if (isinstance(e.op, ast.And)) else "call"
+                    r_ = q.fold(v_, env)
+                    if isinstance(e.op, ast.And) and not r_:
+                        return "none" if r_ is None else None
+                    if isinstance(e.op, ast.Or) and r_:
+                        return None
+                return None
+            except q.NotFoldable:
+                return None
+        return None
+
+    for label_, val, want in (("an unmatched optional group (None)", None, "none"), ("a group that matched the empty string", "", "call"), ("a non-empty group", "x%20y", "call")):
+        env = {p: val}
+
+        def decide(n_, env=env):
+            try:
+                return bool(q.fold(n_.ast, env))
+            except q.NotFoldable:
+                return None
+
+        r_ = walk(un.cfg, [(un.cfg.entry.id, 0)], lambda n_, v_: v_, decide=decide)
+        outs = [un.cfg.nodes[i] for i in r_ if un.cfg.nodes[i].kind == "stmt" and isinstance(un.cfg.nodes[i].ast, ast.Return)]
+        if not outs:
+            raise AnalysisError("_unquote_or_none: no return reached for %s" % label_)
+        for o in outs:
+            got = outcome(o.ast.value, env)
+            if got is None:
+                raise AnalysisError("_unquote_or_none: value returned for %s is not understood: %s" % (label_, q.unparse(o.ast)))
+            ck.ob(rid, un, o.ast, got == want, "%s yields %s" % (label_, "None (and is not passed to url_unescape)" if want == "none" else "its unescaped bytes (the empty string is a value, not 'no match')"), construct="_unquote_or_none(%r) -> %s" % (val, got))
     pm = ck.func(R, "PathMatches.match")
     mobj = None
     for st in own_nodes(pm.node):
@@ -916,6 +959,7 @@ MUTANTS = [
     ("named groups delivered without unescaping", _in(R, "PathMatches.match", replace_expr(lambda n: isinstance(n, ast.DictComp), lambda n: parse_expr("{str(k): v for (k, v) in match.groupdict().items()}"))), "C31.codec"),
     ("named-group test inverted: positional patterns deliver nothing", _in(R, "PathMatches.match", replace_expr(lambda n: isinstance(n, ast.Attribute) and _u(n) == "self.regex.groupindex", lambda n: parse_expr("not self.regex.groupindex"))), "C31.codec"),
     ("numeric reverse() arguments are no longer stringified", _in(R, "PathMatches.reverse", remove_stmts(lambda st: isinstance(st, ast.If) and "isinstance" in _u(st.test))), "C31.codec"),
+    ("seeded C31-adv3: empty matched group becomes None (truthiness instead of `is None`)", _impl_edit(R, "_unquote_or_none", lambda fn: (fn.body.__setitem__(slice(len(fn.body) - 2, len(fn.body)), [parse_stmt("return url_unescape(s, encoding=None, plus=False) if s else None")]) or True)), "C31.codec"),
     ("optional groups crash: None passed to url_unescape", _impl_edit(R, "_unquote_or_none", remove_stmts(lambda st: isinstance(st, ast.If))), "C31.codec"),
     ("F21 repair undone after a group", _in(R, "PathMatches._find_groups", _unescape_pct(0)), "C31.format-hygiene"),
     ("F21 repair undone for the leading fragment", _in(R, "PathMatches._find_groups", _unescape_pct(1)), "C31.format-hygiene"),
